@@ -2947,9 +2947,13 @@ func (p *Posix) PutObject(ctx context.Context, po s3response.PutObjectInput) (s3
 		// x-amz-checksum-*, chunk signatures): they are evaluated by the
 		// readers around the body once it has been read to its end
 		if po.Body != nil {
-			_, err := io.Copy(io.Discard, rdr)
+			n, err := io.Copy(io.Discard, rdr)
 			if err != nil {
 				return s3response.PutObjectOutput{}, err
+			}
+			if n != 0 {
+				// more than the declared (decoded) length of zero
+				return s3response.PutObjectOutput{}, s3err.GetAPIError(s3err.ErrDirectoryObjectContainsData)
 			}
 		}
 
